@@ -93,7 +93,6 @@ func NewReporter(t *testing.T) *Reporter {
 		}
 	}
 	r.deadline = r.start.Add(dl)
-	r.progress.Store(time.Now().UnixNano())
 	go r.watchdog()
 	return r
 }
@@ -102,13 +101,20 @@ func NewReporter(t *testing.T) *Reporter {
 // code is spinning or stuck (a hang is a property violation, not a harness condition); the worker reports the
 // case announced by the last Begin and exits so the driver can continue after it.
 func (r *Reporter) watchdog() {
+	// progress is a counter, not a timestamp: Tick may be called inside a synctest bubble whose clock is fake
 	limit := 90 * time.Second
+	last := r.progress.Load()
+	lastChange := time.Now()
 	for {
 		time.Sleep(2 * time.Second)
 		if r.finished.Load() {
 			return
 		}
-		if time.Since(time.Unix(0, r.progress.Load())) > limit {
+		if cur := r.progress.Load(); cur != last {
+			last, lastChange = cur, time.Now()
+			continue
+		}
+		if time.Since(lastChange) > limit {
 			r.mu.Lock()
 			r.emit(map[string]any{"t": "hang", "case": r.curCase, "sig": r.curSig, "desc": r.curDesc})
 			r.w.Flush()
@@ -118,7 +124,7 @@ func (r *Reporter) watchdog() {
 	}
 }
 
-func (r *Reporter) Tick() { r.progress.Store(time.Now().UnixNano()) }
+func (r *Reporter) Tick() { r.progress.Add(1) }
 
 func (r *Reporter) Thorough() bool { return r.Tier == "thorough" }
 
